@@ -121,8 +121,10 @@ def standin_oracle(seed, args):
         tried += 1
         d = probes.run_case(p)
         if d is not None:
-            if len(failures) < 3:
-                failures.append({'input': p, 'detail': d, 'signature': {'family': args.get('label', '')}})
+            kinds = {f['signature']['kind'] for f in failures}
+            if len(failures) < 3 or d.get('signature_kind', '') not in kinds:
+                failures.append({'input': p, 'detail': d,
+                                 'signature': {'family': args.get('label', ''), 'kind': d.get('signature_kind', '')}})
     return {'evaluations': tried, 'exhaustive': False,
             'scope': f"{tried} random cases of family {args.get('label', fam)} (domains of {fam.get('n', 3)} objects, depth <= {fam.get('depth', 2)})",
             'failures': failures, 'n_failures': len(failures)}
